@@ -182,10 +182,13 @@ deriving DecidableEq, Repr
 def selected (valid : List String) (g : String) : Bool := valid.isEmpty || valid.contains g
 
 /-- the RPC call sequence of do_update after reloadConfig answered (added, changed, removed);
-    `valid` = the named groups ([] for none or "all"); every stop answer is assumed not FAILED -/
-def updateCalls (valid : List String) (added changed removed : List String) : List Call :=
-  ((removed.filter (selected valid)).flatMap fun g => [Call.stop g, Call.remove g]) ++
-  ((changed.filter (selected valid)).flatMap fun g => [Call.stop g, Call.remove g, Call.add g]) ++
+    `valid` = the named groups ([] for none or "all"); `fails` = the groups whose stopProcessGroup answer contains
+    a status other than SUCCESS / NOT_RUNNING: such a group is neither removed nor re-added -/
+def updateCalls (valid fails : List String) (added changed removed : List String) : List Call :=
+  ((removed.filter (selected valid)).flatMap fun g =>
+      if fails.contains g then [Call.stop g] else [Call.stop g, Call.remove g]) ++
+  ((changed.filter (selected valid)).flatMap fun g =>
+      if fails.contains g then [Call.stop g] else [Call.stop g, Call.remove g, Call.add g]) ++
   ((added.filter (selected valid)).map Call.add)
 
 def validNames (args : List String) : List String := if args.contains "all" then [] else args
@@ -197,10 +200,11 @@ def runCall (s : State) : Call → State
 
 def runCalls (s : State) (cs : List Call) : State := cs.foldl runCall s
 
-/-- the whole `supervisorctl update <args>` against a daemon in state `s` whose file parses to `new` -/
+/-- the whole `supervisorctl update <args>` against a daemon in state `s` whose file parses to `new`, every stop
+    completing (no stop failure) -/
 def doUpdate (s : State) (new : List GConfig) (args : List String) : State :=
   match reloadConfig s (.ok new) with
-  | (.ok (a, c, r), s') => runCalls s' (updateCalls (validNames args) a c r)
+  | (.ok (a, c, r), s') => runCalls s' (updateCalls (validNames args) [] a c r)
   | (.error _, s') => s'
 
 end Sv.Reread
